@@ -584,3 +584,117 @@ Definition b_sess_of (st : bstate) (k : N) : option (N * N) := bs_sess st !! k.
 Definition b_live (st : bstate) : list N :=
   List.filter (fun k => match bs_sess st !! k with Some _ => true | None => false end) bgp_addrs.
 Definition b_peer_of (c : bcfg) (k : N) : option N := bc_peers c !! k.
+
+(* ------------------------------------------------------------------ *)
+(* A router that connects again while its previous connection is still open
+   (it rebooted; the collector's old connection is half-open) - bmp-tcp-in
+   unit.rs, accept loop: the id of the new connection is whatever
+   find_existing_bmp_router(unit id, address) finds, whether or not a session of
+   that id is still in router_states; router_connected / router_states.insert
+   then REPLACE the entries of that id by the new session's. The handler of the
+   old connection keeps its own state machine and goes on reading. When the old
+   connection ends at last, its task does what every task does: WithdrawBulk of
+   ids_for_parent(router id) - the peers of the NEW session have those ids -
+   and router_states.remove(id), router_info.remove(id) - the NEW session's
+   entries (accept_config). The new session goes on, unlisted. *)
+
+Record dstate := MkDs {
+  ds_e : estate;
+  ds_old : gmap N N;                 (* router address -> router id of its parked old connection *)
+  ds_ghost : list N;                 (* connected routers whose entries the task of their old connection removed *)
+  ds_fresh : list (N * N * wid) }.   (* routes that sessions with a parked predecessor have announced or withdrawn themselves *)
+
+Inductive dop :=
+| DE (o : eop)
+| DSecond (k : N)                    (* router k opens a second connection, the first one stays open and silent *)
+| DOldEnds (k : N).                  (* the parked connection of router k ends *)
+
+Definition d_init (s0 : script) (n0 : N) : dstate := MkDs (e_init_v s0 n0) ∅ [] [].
+
+Definition d_live (st : dstate) (k : N) : option (N * sm) := w_routers (es_w (ds_e st)) !! k.
+
+(* the keys a route message of router k touches in the property's reading, when that reading takes the message *)
+Definition touched (sw : sworld) (o : wop) : list (N * N * wid) :=
+  match o with
+  | WMsg k (MRoute p (Some (URoutes af ann _ wf wd))) =>
+      match s_sess sw !! k with
+      | Some ((PDump | PUpd), up, _) =>
+          if bool_decide (p ∈ up) then map (fun x => (af, x, (k, p))) ann ++ map (fun x => (wf, x, (k, p))) wd else []
+      | _ => []
+      end
+  | _ => []
+  end.
+
+(* every RIB unit takes the update (through its filter) *)
+Definition e_deliver (st : estate) (u : update) : estate :=
+  let w := es_w st in
+  MkEs (MkWorld (w_reg w) (w_unit w) (w_routers w) (rib_apply (w_rib w) u) (w_bgp w) (w_bgp_conns w) (w_ids w))
+       (es_file st) (es_scripts st) (es_compiled st) (runit_apply (es_rib st) u) (es_rib2kind st)
+       (option_map (fun r => runit_apply r u) (es_rib2 st)) (es_s st) (es_s2 st) (es_vribs st).
+Definition e_set_s (st : estate) (s : sworld) : estate :=
+  MkEs (es_w st) (es_file st) (es_scripts st) (es_compiled st) (es_rib st) (es_rib2kind st) (es_rib2 st) s (es_s2 st) (es_vribs st).
+
+(* what the property asks for when the old connection of a connected router ends: the routes learned over it - the
+   router's routes that the new session has not announced or withdrawn itself - are withdrawn *)
+Definition spec_old_ends (fresh : list (N * N * wid)) (k : N) (sw : sworld) : sworld :=
+  MkSWorld (s_sess sw)
+           (map_imap (fun key v => if bool_decide (key.2.1 = k) && negb (bool_decide (key ∈ fresh)) then Some (false, v.2) else Some v) (s_rib sw))
+           (s_bgp sw) (s_bgp_conns sw).
+
+Definition d_step (st : dstate) (o : dop) : dstate :=
+  match o with
+  | DE (EW (WConnect k)) =>
+      match d_live st k with
+      | Some _ => st                                   (* the engine's `C k` of a connected router is skipped *)
+      | None => MkDs (e_step false (ds_e st) (EW (WConnect k))) (ds_old st) (ds_ghost st) (ds_fresh st)
+      end
+  | DE (EW (WDisconnect k)) =>
+      MkDs (e_step false (ds_e st) (EW (WDisconnect k))) (ds_old st) (List.filter (fun x => negb (x =? k)%N) (ds_ghost st)) (ds_fresh st)
+  | DE (EW wo) =>
+      let t := match wop_router wo with
+               | Some k => match ds_old st !! k with Some _ => touched (es_s (ds_e st)) wo | None => [] end
+               | None => [] end in
+      MkDs (e_step false (ds_e st) (EW wo)) (ds_old st) (ds_ghost st) (t ++ ds_fresh st)
+  | DE o => MkDs (e_step false (ds_e st) o) (ds_old st) (ds_ghost st) (ds_fresh st)
+  | DSecond k =>
+      match d_live st k, ds_old st !! k with
+      | Some (rid, _), None =>
+          (* the accept loop again: the id the register holds for (unit, address); a fresh state machine replaces the entry *)
+          MkDs (e_step false (ds_e st) (EW (WConnect k))) (<[k := rid]> (ds_old st)) (ds_ghost st)
+               (List.filter (fun key => negb (key.2.1 =? k)%N) (ds_fresh st))
+      | Some _, Some _ => st
+      | None, _ => MkDs (e_step false (ds_e st) (EW (WConnect k))) (ds_old st) (ds_ghost st) (ds_fresh st)
+      end
+  | DOldEnds k =>
+      match ds_old st !! k with
+      | None => st
+      | Some rid =>
+          let e1 := e_deliver (ds_e st) (UWithdrawBulk (reg_ids_for_parent (w_reg (es_w (ds_e st))) rid)) in
+          match d_live st k with
+          | Some _ => MkDs (e_set_s e1 (spec_old_ends (ds_fresh st) k (es_s e1))) (delete k (ds_old st))
+                           (if existsb (fun x => (x =? k)%N) (ds_ghost st) then ds_ghost st else k :: ds_ghost st) (ds_fresh st)
+          | None => MkDs e1 (delete k (ds_old st)) (ds_ghost st) (ds_fresh st)
+          end
+      end
+  end.
+
+Definition d_run (st : dstate) (h : list dop) : dstate := fold_left d_step h st.
+
+(* GET /routers/: what the code lists (the entries of router_info) and what is connected *)
+Definition d_listed_code (st : dstate) : N :=
+  N.of_nat (length (List.filter (fun kv : N * (N * sm) => negb (existsb (fun x => (x =? kv.1)%N) (ds_ghost st))) (map_to_list (w_routers (es_w (ds_e st)))))).
+Definition d_listed_spec (st : dstate) : N := N.of_nat (size (w_routers (es_w (ds_e st)))).
+Definition d_rid (st : dstate) (k : N) : option N := match d_live st k with Some (rid, _) => Some rid | None => None end.
+Definition d_old (st : dstate) (k : N) : option N := ds_old st !! k.
+
+(* The accept loop with the guard of seeded change C14-c2 (reuse the id found only when router_states no longer holds it),
+   for the refutation: *)
+Definition accept_guarded (w : world) (k : N) : N * reg :=
+  let q := router_query (w_unit w) k in
+  match reg_find_all router_match (w_reg w) q with
+  | id :: _ =>
+      if existsb (fun kv : N * (N * sm) => (kv.2.1 =? id)%N) (map_to_list (w_routers w))
+      then let '(id', r') := reg_register (w_reg w) in (id', reg_update_info r' id' q)
+      else (id, w_reg w)
+  | [] => let '(id', r') := reg_register (w_reg w) in (id', reg_update_info r' id' q)
+  end.
